@@ -10,12 +10,18 @@ from argparse import Namespace
 from . import gen as G
 
 KINDS = ("argparse_function", "class", "function")
-PRESTATES = ("missing", "empty", "absent", "stale", "agreeing", "rebound")
+PRESTATES = ("missing", "empty", "absent", "stale", "agreeing", "rebound", "near")
 OTHER_SRC = [
     "import os\n",
     "CONSTANT = 5\n",
     "def helper_fn(value):\n    return value\n",
     "class Unrelated(object):\n    attr: int = 1\n",
+]
+# what a hand-written file starts with: a module docstring (one line / several lines with their own indentation), a comment
+HEADERS = [
+    '"""Methods of the project."""\n',
+    '"""\nModule docstring of the project.\n\n    An indented second paragraph.\n"""\n\nimport os\n',
+    "# -*- coding: utf-8 -*-\n# a comment\nimport os\n",
 ]
 
 
@@ -35,6 +41,39 @@ def core_ir(r, nmax=3, returns=None):
     if returns if returns is not None else r.random() < 0.3:
         ret = {"typ": r.choice(G.SCALARS), "doc": G.prose(r, 1, 3, rich=False)}
     return {"doc": G.prose(r, 2, 5, rich=False), "params": params, "returns": ret}
+
+
+def near_ir(r, ir):
+    """the description with ONE small difference: a default of equal value but another type (1 / True / 1.0), a
+    default that differs in white space inside the string only, one word of one prose, one type"""
+    out = copy.deepcopy(ir)
+    params = out["params"]
+    cands = []
+    for k, (n, p) in enumerate(params):
+        d = p.get("default")
+        if isinstance(d, bool):
+            cands.append((k, "default", int(d)))
+        elif isinstance(d, int):
+            cands.append((k, "default", float(d)))
+            if d in (0, 1):
+                cands.append((k, "default", bool(d)))
+        elif isinstance(d, float) and d == int(d):
+            cands.append((k, "default", int(d)))
+        elif isinstance(d, str) and " " in d:
+            cands.append((k, "default", d.replace(" ", "  ", 1)))
+        elif isinstance(d, str) and d:
+            cands.append((k, "default", d + " "))
+        if p.get("doc"):
+            cands.append((k, "doc", p["doc"].replace(" ", "  ", 1) if r.random() < 0.3 and " " in p["doc"] else "changed " + p["doc"]))
+        if p.get("typ") in ("int", "float"):
+            cands.append((k, "typ", {"int": "float", "float": "int"}[p["typ"]]))
+    if not cands:
+        out["doc"] = "changed " + out["doc"]
+        return out
+    typed = [c for c in cands if c[1] == "default"]
+    k, field, v = r.choice(typed if typed and r.random() < 0.7 else cands)
+    params[k] = (params[k][0], dict(params[k][1], **{field: v}))
+    return out
 
 
 def default_name(kind, method):
@@ -83,13 +122,14 @@ def gen_project(r, n_kinds=None, prestates=PRESTATES, allow_method=True, allow_b
         name = default_name(k, method)
         files = []
         if k == truth:
-            files.append({"name": "truth_%s.py" % k, "prestate": "truth", "content": render(k, ir, name, method)})
+            tb = r.choice(HEADERS) if allow_before and r.random() < 0.3 else ""
+            files.append({"name": "truth_%s.py" % k, "prestate": "truth", "content": render(k, ir, name, method, tb), "before": tb, "after": ""})
             extra = r.randint(0, 1) if multi else 0
         else:
             extra = r.randint(1, 2) if multi else 1
         for i in range(extra):
-            ps = r.choice(prestates)
-            before = r.choice(OTHER_SRC[:2] + [""]) if allow_before and r.random() < 0.5 else ""
+            ps = r.choice(list(prestates) + (["near", "near"] if "near" in prestates else []))
+            before = r.choice(OTHER_SRC[:2] + HEADERS + [""]) if allow_before and r.random() < 0.5 else ""
             after = r.choice(OTHER_SRC[1:2]) if r.random() < 0.3 else ""
             if ps == "missing":
                 content = None
@@ -105,9 +145,14 @@ def gen_project(r, n_kinds=None, prestates=PRESTATES, allow_method=True, allow_b
                 content = before or "import os\n"
             elif ps == "stale":
                 content = render(k, stale, name, method, before, after)
+            elif ps == "near":
+                nir = near_ir(r, ir)
+                content = render(k, nir, name, method, before, after)
             else:
                 content = render(k, ir, name, method, before, after)
-            files.append({"name": "%s_%d.py" % (k, i), "prestate": ps, "content": content})
+            files.append({"name": "%s_%d.py" % (k, i), "prestate": ps, "content": content, "before": before, "after": after})
+            if ps == "near":
+                files[-1]["near_ir"] = nir
         cfg["kinds"][k] = {"name": name, "method": method, "files": files}
     return cfg
 
